@@ -36,6 +36,8 @@ the key (followed through locals and package helpers). FACTORY-PURE - the only
 write of RunTaskFactory.make / copy that reaches the factory or the arguments,
 through any callee, is the memo self.cache (a request never changes what later
 requests of the same factory get).
+CACHE-KEEP - nothing in the module removes entries from a memo container (no
+eviction: after one, an identical request builds a second task).
 Not decided: the behaviour of a generated task when it is run (do() on a
 prepared environment); termination of the closure on cyclic graphs.
 '''
@@ -58,6 +60,7 @@ def check(ctx):
     ctx.run(memo.check_use_pure)
     ctx.run(memo.check_factory_pure)
     ctx.run(memo.check_close_fresh)
+    ctx.run(memo.check_cache_keep)
     ctx.run(patterns.check_patterns, ID)
 
 
@@ -168,6 +171,22 @@ def _variants(program):
             'self.deps + deps',
             lambda n: parse_expr('[*self.deps, *deps]'))
     add('twin-make-unpacks-dependencies', 'twin', RUN, make_unpacks_deps)
+
+    def cache_bounded(tree):
+        fun = find_func(tree, 'Use.get_task')
+        for pos, stmt in enumerate(fun.body):
+            if isinstance(stmt, ast.Assign) and isinstance(
+                    stmt.targets[0], ast.Subscript) and '_CACHE' in txt(
+                        stmt.targets[0]):
+                fun.body.insert(pos + 1, parse_stmts(
+                    'while len(self._CACHE) > 512:\n'
+                    '    self._CACHE.pop(next(iter(self._CACHE)))')[0])
+                return True
+        return False
+    add('seed-use-cache-bounded-by-evicting-the-oldest-entry', 'mutant', USE,
+        cache_bounded, {'CACHE-KEEP'},
+        note='seed C15-r4-1: after 512 other requests an identical request '
+             'builds a second task')
 
     def hit_returns_new(tree):
         fun = find_func(tree, 'RunTaskFactory.make')
